@@ -36,10 +36,12 @@ impl<'de, const LENGTH: usize> Deserialize<'de> for StackByteArray<LENGTH> {
                 while let Some(elem) = seq.next_element()? {
                     if idx < LENGTH {
                         arr[idx] = elem;
-                        idx += 1;
-                    } else {
-                        break;
                     }
+                    idx += 1;
+                }
+
+                if idx != LENGTH {
+                    return Err(Error::invalid_length(idx, &stringify!(LENGTH)));
                 }
 
                 Ok(arr)
